@@ -413,8 +413,12 @@ class BADS:
             plausible lower and upper bounds need to be distinct."""
             )
 
-        # Check that all X0 are inside the bounds
-        if np.any(x0 < lower_bounds) or np.any(x0 > upper_bounds):
+        # Check that all X0 are inside the bounds (an infinite X0 is never a valid point)
+        if (
+            np.any(x0 < lower_bounds)
+            or np.any(x0 > upper_bounds)
+            or np.any(np.isinf(x0))
+        ):
             raise ValueError(
                 """bads:InitialPointsNotInsideBounds: The starting
                 points X0 are not inside the provided hard bounds lower_bounds and upper_bounds."""
